@@ -3,6 +3,7 @@ HMAC (RFC 2104) over SHA-256 and SHA-512, executable; validated against Go `cryp
 by `harness/prim`.
 -/
 import TdModel.Prim.SHA256
+import TdModel.Prim.SHA512
 
 namespace TdModel.Prim
 namespace HMAC
@@ -29,5 +30,9 @@ end HMAC
 /-- HMAC-SHA256 (32 bytes). -/
 def hmacSha256 (key msg : Bytes) : Bytes :=
   ofBA (HMAC.hmacBA SHA256.hashBA 64 (toBA key) (toBA msg))
+
+/-- HMAC-SHA512 (64 bytes). -/
+def hmacSha512 (key msg : Bytes) : Bytes :=
+  ofBA (HMAC.hmacBA SHA512.hashBA 128 (toBA key) (toBA msg))
 
 end TdModel.Prim
